@@ -313,10 +313,11 @@ class World(object):
             self.flags.add("register-ok")
         else:
             if all_free:
-                again = any((h, c) in self.removed for c, h in hs.items())
+                # root-cause key: a handler that an unregister(resource) should have removed is in the way
+                again = any(cc in hs for (_, cc) in self.removed)
                 self.viol("unregister-ineffective" if again else "register-refused-when-free",
                           "register(%s) raised %r although no handler is registered for any of %s%s" % (
-                              rid, exc, sorted(hs), " (after unregister of that resource)" if again else ""))
+                              rid, exc, sorted(hs), " (after an unregister that covered such a class)" if again else ""))
                 return
             # refused.  Definitely occupied classes keep their mapping; which free classes of the resource got
             # installed before the exception is unspecified
@@ -661,7 +662,7 @@ def plan(tier):
             for ann in ("cls", "str"):
                 specs.append({"part": "enum", "kind": kind, "ann": ann, "depth": 4})
         for i in range(12):
-            specs.append({"part": "sm", "kind": kinds[i % 2], "n": 2500, "i": i})
+            specs.append({"part": "sm", "kind": kinds[i % 2], "n": 2000, "i": i})
     else:
         for kind in kinds:
             for ann in ("cls", "str"):
